@@ -1,5 +1,7 @@
 import VaxisModel.Model.Vxfw
 
+set_option linter.unusedVariables false
+
 /-! C15: when do the nested calls `handleCommand → focusWidget → handler → handleCommand` stay within a
     nesting budget?  If no handler answers a FocusIn / FocusOut NOTIFICATION with a command that contains
     a focus command (`NotifFF`), the nesting is at most two deep: with a budget of 2 or more the model
@@ -60,13 +62,18 @@ theorem focusWidget_ns (o : Oracle) (hff : NotifFF o) (fuel : Nat) (hf : 2 ≤ f
   obtain ⟨f, rfl⟩ : ∃ f, fuel = f + 1 := ⟨fuel - 1, by omega⟩
   exact focusWidgetWith_ns o hff f (by omega) s w
 
-theorem offer_ns (o : Oracle) (hff : NotifFF o) (fuel : Nat) (hf : 2 ≤ fuel) (s : St) (w : Id) (ev : Ev) (ph : Phase) :
+/-- `handleCommand` / `focusWidget` at budget `fuel` never exhaust it (what the lemmas below need; provided by `hc_ns` /
+    `focusWidget_ns` under `NotifFF`, by `Lemmas/VxfwRank.lean` under a rank condition). -/
+abbrev HcNs (o : Oracle) (fuel : Nat) : Prop := ∀ (s : St) (c : Cmd), (handleCommand o fuel s c).stuck = s.stuck
+abbrev FwNs (o : Oracle) (fuel : Nat) : Prop := ∀ (s : St) (w : Id), (focusWidget o fuel s w).stuck = s.stuck
+
+theorem offer_ns (o : Oracle) (fuel : Nat) (H : HcNs o fuel) (H2 : FwNs o fuel) (s : St) (w : Id) (ev : Ev) (ph : Phase) :
     (offer o fuel s w ev ph).1.stuck = s.stuck := by
   unfold offer
   simp only []
-  split <;> simp only [hc_ns o hff fuel hf] <;> rfl
+  split <;> simp only [H] <;> rfl
 
-theorem capturePhase_ns (o : Oracle) (hff : NotifFF o) (fuel : Nat) (hf : 2 ≤ fuel) (ev : Ev) : ∀ (ws : List Id) (s : St),
+theorem capturePhase_ns (o : Oracle) (fuel : Nat) (H : HcNs o fuel) (H2 : FwNs o fuel) (ev : Ev) : ∀ (ws : List Id) (s : St),
     (capturePhase o fuel ev ws s).1.stuck = s.stuck
   | [], _ => rfl
   | w :: ws, s => by
@@ -74,110 +81,110 @@ theorem capturePhase_ns (o : Oracle) (hff : NotifFF o) (fuel : Nat) (hf : 2 ≤ 
     split
     · simp only []
       split
-      · exact offer_ns o hff fuel hf s w ev .capture
-      · rw [capturePhase_ns o hff fuel hf ev ws, offer_ns o hff fuel hf]
-    · exact capturePhase_ns o hff fuel hf ev ws s
+      · exact offer_ns o fuel H H2 s w ev .capture
+      · rw [capturePhase_ns o fuel H H2 ev ws, offer_ns o fuel H H2]
+    · exact capturePhase_ns o fuel H H2 ev ws s
 
-theorem bubblePhase_ns (o : Oracle) (hff : NotifFF o) (fuel : Nat) (hf : 2 ≤ fuel) (ev : Ev) : ∀ (ws : List Id) (s : St),
+theorem bubblePhase_ns (o : Oracle) (fuel : Nat) (H : HcNs o fuel) (H2 : FwNs o fuel) (ev : Ev) : ∀ (ws : List Id) (s : St),
     (bubblePhase o fuel ev ws s).stuck = s.stuck
   | [], _ => rfl
   | w :: ws, s => by
     unfold bubblePhase
     simp only []
     split
-    · exact offer_ns o hff fuel hf s w ev .bubble
-    · rw [bubblePhase_ns o hff fuel hf ev ws, offer_ns o hff fuel hf]
+    · exact offer_ns o fuel H H2 s w ev .bubble
+    · rw [bubblePhase_ns o fuel H H2 ev ws, offer_ns o fuel H H2]
 
-theorem dispatch_ns (o : Oracle) (hff : NotifFF o) (fuel : Nat) (hf : 2 ≤ fuel) (chain : List Id) (tgt : St → Id) (ev : Ev) (s : St) :
+theorem dispatch_ns (o : Oracle) (fuel : Nat) (H : HcNs o fuel) (H2 : FwNs o fuel) (chain : List Id) (tgt : St → Id) (ev : Ev) (s : St) :
     (dispatch o fuel chain tgt ev s).stuck = s.stuck := by
   unfold dispatch
   simp only []
   split
-  · rw [capturePhase_ns o hff fuel hf]
+  · rw [capturePhase_ns o fuel H H2]
   · split
-    · rw [offer_ns o hff fuel hf, capturePhase_ns o hff fuel hf]
-    · rw [bubblePhase_ns o hff fuel hf, offer_ns o hff fuel hf, capturePhase_ns o hff fuel hf]
+    · rw [offer_ns o fuel H H2, capturePhase_ns o fuel H H2]
+    · rw [bubblePhase_ns o fuel H H2, offer_ns o fuel H H2, capturePhase_ns o fuel H H2]
 
-theorem handleEvent_ns (o : Oracle) (hff : NotifFF o) (fuel : Nat) (hf : 2 ≤ fuel) (s : St) (ev : Ev) :
-    (handleEvent o fuel s ev).stuck = s.stuck := dispatch_ns o hff fuel hf _ _ ev s
+theorem handleEvent_ns (o : Oracle) (fuel : Nat) (H : HcNs o fuel) (H2 : FwNs o fuel) (s : St) (ev : Ev) :
+    (handleEvent o fuel s ev).stuck = s.stuck := dispatch_ns o fuel H H2 _ _ ev s
 
-theorem updatePath_ns (o : Oracle) (hff : NotifFF o) (fuel : Nat) (hf : 2 ≤ fuel) (s : St) (t : STree) :
+theorem updatePath_ns (o : Oracle) (fuel : Nat) (H : HcNs o fuel) (H2 : FwNs o fuel) (s : St) (t : STree) :
     (updatePath o fuel s t).stuck = s.stuck := by
   unfold updatePath
   simp only []
   split
   · rfl
-  · rw [focusWidget_ns o hff fuel hf]; rfl
+  · rw [H2]; rfl
 
-theorem notify_ns (o : Oracle) (hff : NotifFF o) (fuel : Nat) (hf : 2 ≤ fuel) (s : St) (w : Id) (ev : Ev) :
+theorem notify_ns (o : Oracle) (fuel : Nat) (H : HcNs o fuel) (H2 : FwNs o fuel) (s : St) (w : Id) (ev : Ev) :
     (notify o fuel s w ev).stuck = s.stuck := by
   unfold notify
-  simp only [hc_ns o hff fuel hf]
+  simp only [H]
   rfl
 
-theorem foldl_notify_ns (o : Oracle) (hff : NotifFF o) (fuel : Nat) (hf : 2 ≤ fuel) (ev : Ev) (skip : Hit → Bool) :
+theorem foldl_notify_ns (o : Oracle) (fuel : Nat) (H : HcNs o fuel) (H2 : FwNs o fuel) (ev : Ev) (skip : Hit → Bool) :
     ∀ (l : List Hit) (s : St),
       (l.foldl (fun s h1 => if skip h1 then s else notify o fuel s h1.w ev) s).stuck = s.stuck
   | [], _ => rfl
   | h :: l, s => by
-    rw [List.foldl_cons, foldl_notify_ns o hff fuel hf ev skip l]
+    rw [List.foldl_cons, foldl_notify_ns o fuel H H2 ev skip l]
     split
     · rfl
-    · exact notify_ns o hff fuel hf s h.w ev
+    · exact notify_ns o fuel H H2 s h.w ev
 
-theorem mouseUpdate_ns (o : Oracle) (hff : NotifFF o) (fuel : Nat) (hf : 2 ≤ fuel) (s : St) (t : STree) :
+theorem mouseUpdate_ns (o : Oracle) (fuel : Nat) (H : HcNs o fuel) (H2 : FwNs o fuel) (s : St) (t : STree) :
     (mouseUpdate o fuel s t).stuck = s.stuck := by
   unfold mouseUpdate
   split
   · rfl
   · simp only []
-    rw [foldl_notify_ns o hff fuel hf .mouseEnter (fun h1 => s.lastHits.contains h1),
-      foldl_notify_ns o hff fuel hf .mouseLeave (fun h1 => (hitsAt t _ _).contains h1)]
+    rw [foldl_notify_ns o fuel H H2 .mouseEnter (fun h1 => s.lastHits.contains h1),
+      foldl_notify_ns o fuel H H2 .mouseLeave (fun h1 => (hitsAt t _ _).contains h1)]
 
-theorem mouseExit_ns (o : Oracle) (hff : NotifFF o) (fuel : Nat) (hf : 2 ≤ fuel) (s : St) :
+theorem mouseExit_ns (o : Oracle) (fuel : Nat) (H : HcNs o fuel) (H2 : FwNs o fuel) (s : St) :
     (mouseExit o fuel s).stuck = s.stuck := by
   unfold mouseExit
   simp only []
-  have := foldl_notify_ns o hff fuel hf .mouseLeave (fun _ => false) s.lastHits s
+  have := foldl_notify_ns o fuel H H2 .mouseLeave (fun _ => false) s.lastHits s
   simpa using this
 
-theorem mouseEnter_ns (o : Oracle) (hff : NotifFF o) (fuel : Nat) (hf : 2 ≤ fuel) (s : St) (w : Id) :
+theorem mouseEnter_ns (o : Oracle) (fuel : Nat) (H : HcNs o fuel) (H2 : FwNs o fuel) (s : St) (w : Id) :
     (mouseEnter o fuel s w).stuck = s.stuck := by
   unfold mouseEnter
   split
   · rfl
-  · rw [notify_ns o hff fuel hf]
+  · rw [notify_ns o fuel H H2]
 
-theorem mouseHandleEvent_ns (o : Oracle) (hff : NotifFF o) (fuel : Nat) (hf : 2 ≤ fuel) (s : St) (c r : Int) :
+theorem mouseHandleEvent_ns (o : Oracle) (fuel : Nat) (H : HcNs o fuel) (H2 : FwNs o fuel) (s : St) (c r : Int) :
     (mouseHandleEvent o fuel s c r).stuck = s.stuck := by
   unfold mouseHandleEvent
   simp only []
   split
-  · rw [mouseUpdate_ns o hff fuel hf]
-  · rw [dispatch_ns o hff fuel hf, mouseUpdate_ns o hff fuel hf]
+  · rw [mouseUpdate_ns o fuel H H2]
+  · rw [dispatch_ns o fuel H H2, mouseUpdate_ns o fuel H H2]
 
-theorem runEvent_ns (o : Oracle) (hff : NotifFF o) (fuel : Nat) (hf : 2 ≤ fuel) (s : St) (e : RunEv) :
+theorem runEvent_ns (o : Oracle) (fuel : Nat) (H : HcNs o fuel) (H2 : FwNs o fuel) (s : St) (e : RunEv) :
     (runEvent o fuel s e).stuck = s.stuck := by
   cases e with
   | resize => rfl
-  | mouse c r => exact mouseHandleEvent_ns o hff fuel hf s c r
-  | focusIn => exact mouseEnter_ns o hff fuel hf s s.root
-  | focusOut => exact mouseExit_ns o hff fuel hf _
-  | key k => exact handleEvent_ns o hff fuel hf s _
+  | mouse c r => exact mouseHandleEvent_ns o fuel H H2 s c r
+  | focusIn => exact mouseEnter_ns o fuel H H2 s s.root
+  | focusOut => exact mouseExit_ns o fuel H H2 _
+  | key k => exact handleEvent_ns o fuel H H2 s _
   | redraw => rfl
-  | other k => exact handleEvent_ns o hff fuel hf s _
+  | other k => exact handleEvent_ns o fuel H H2 s _
 
-theorem runFrame_ns (o : Oracle) (hff : NotifFF o) (fuel : Nat) (hf : 2 ≤ fuel) (s : St) (t1 t2 : STree) :
+theorem runFrame_ns (o : Oracle) (fuel : Nat) (H : HcNs o fuel) (H2 : FwNs o fuel) (s : St) (t1 t2 : STree) :
     (runFrame o fuel s t1 t2).stuck = s.stuck := by
   unfold runFrame
   split
   · rfl
   · simp only []
-    rw [updatePath_ns o hff fuel hf]
+    rw [updatePath_ns o fuel H H2]
     simp only []
-    split <;> simp only [mouseUpdate_ns o hff fuel hf]
+    split <;> simp only [mouseUpdate_ns o fuel H H2]
 
-theorem runSteps_ns (o : Oracle) (hff : NotifFF o) (fuel : Nat) (hf : 2 ≤ fuel) : ∀ (steps : List Step) (s : St),
+theorem runSteps_ns (o : Oracle) (fuel : Nat) (H : HcNs o fuel) (H2 : FwNs o fuel) : ∀ (steps : List Step) (s : St),
     (runSteps o fuel s steps).stuck = s.stuck
   | [], _ => rfl
   | st :: rest, s => by
@@ -187,21 +194,26 @@ theorem runSteps_ns (o : Oracle) (hff : NotifFF o) (fuel : Nat) (hf : 2 ≤ fuel
     | ev e =>
       simp only [runStep]
       by_cases hq : (runEvent o fuel s e).quit = true
-      · simp only [hq, ↓reduceIte]; exact runEvent_ns o hff fuel hf s e
+      · simp only [hq, ↓reduceIte]; exact runEvent_ns o fuel H H2 s e
       · have hq' : (runEvent o fuel s e).quit = false := by simpa using hq
-        simp only [hq', Bool.false_eq_true, ↓reduceIte]; rw [runSteps_ns o hff fuel hf rest, runEvent_ns o hff fuel hf]
+        simp only [hq', Bool.false_eq_true, ↓reduceIte]; rw [runSteps_ns o fuel H H2 rest, runEvent_ns o fuel H H2]
     | frame t1 t2 =>
       simp only [runStep]
-      rw [runSteps_ns o hff fuel hf rest, runFrame_ns o hff fuel hf]
+      rw [runSteps_ns o fuel H H2 rest, runFrame_ns o fuel H H2]
+
+/-- The budget flag over a whole history, given that `handleCommand` and `focusWidget` at this budget keep it. -/
+theorem run_never_stuck_of (o : Oracle) (fuel : Nat) (H : HcNs o fuel) (H2 : FwNs o fuel) (root : Id) (t0 : STree) (steps : List Step) :
+    (runSteps o fuel (runInit o fuel root t0) steps).stuck = false := by
+  rw [runSteps_ns o fuel H H2]
+  unfold runInit
+  simp only []
+  rw [handleEvent_ns o fuel H H2]
+  rfl
 
 /-- **The nesting budget is never exhausted** by handlers that do not answer focus notifications with
     focus commands: any budget ≥ 2, any history of the Run loop. -/
 theorem run_never_stuck (o : Oracle) (hff : NotifFF o) (fuel : Nat) (hf : 2 ≤ fuel) (root : Id) (t0 : STree) (steps : List Step) :
-    (runSteps o fuel (runInit o fuel root t0) steps).stuck = false := by
-  rw [runSteps_ns o hff fuel hf]
-  unfold runInit
-  simp only []
-  rw [handleEvent_ns o hff fuel hf]
-  rfl
+    (runSteps o fuel (runInit o fuel root t0) steps).stuck = false :=
+  run_never_stuck_of o fuel (hc_ns o hff fuel hf) (focusWidget_ns o hff fuel hf) root t0 steps
 
 end VaxisModel.Lemmas.Vxfw
